@@ -456,3 +456,24 @@ Theorem C15_reinit_then_commit_fresh : forall sro R0 hs acts k tr2,
             (cont t = [] -> tres t = Some (lookup_all sro (commit_R acts []) k)).
 Proof. exact reinit_then_commit_fresh. Qed.
 Print Assumptions C15_reinit_then_commit_fresh.
+
+(* ---- third proof-only round ---- *)
+Require Import Verif.Proofs.C15_more.
+
+(* requests along histories (traces separated by re-initialisations): whenever the expectation the harness judges
+   with constrains the lookup of a request, the model -- running the function GENERATED from _call_view -- answers
+   it with the first candidate of lookup_all that does not raise PredicateMismatch *)
+Theorem C15_hist_request_answer_sound : forall sro R0 hs j vs t tbl,
+  reinit_idle sro KeyFull lookup_prog register_prog init_prog hs (init R0) = true ->
+  hexpect sro KeyFull lookup_prog register_prog init_prog (init R0) hs (fun _ => None) j = Some vs ->
+  threads (hexec sro KeyFull lookup_prog register_prog init_prog hs (init R0)) j = Some t -> cont t = [] ->
+  request_answer tbl (tres t) = Some (first_answer tbl vs).
+Proof. exact hist_request_answer_sound. Qed.
+Print Assumptions C15_hist_request_answer_sound.
+
+(* lookup_fresh along histories with re-initialisations holds without the lock as well (both lock-free bodies) *)
+Theorem C15_hist_lookup_fresh_without_lock :
+  hist_fresh_claim KeyFull (lookup_with wb_nolock) register_prog init_prog /\
+  hist_fresh_claim KeyFull (lookup_with wb_nolock_split) register_prog init_prog.
+Proof. exact hist_lookup_fresh_nolock. Qed.
+Print Assumptions C15_hist_lookup_fresh_without_lock.
